@@ -318,6 +318,18 @@ def check_walker_paths(ctx, ws):
                     if k and k.replace(POLICY, CHECKS) in classes:
                         is_a.add(k.replace(POLICY, CHECKS))
 
+            # duck typing: a truthy read of the child attribute `a` says the
+            # check is of one of the classes that hold children under `a`
+            # (an instance of another class has no such attribute)
+            for c in p.conds:
+                if c.kind in ('test', 'loop') and c.pol and not isinstance(
+                        t.expand(c.expr), ast.Compare):
+                    for q0, a0_ in holders.items():
+                        if reads_attr(c.expr, a0_) and not any(
+                                a1_ != a0_ and reads_attr(c.expr, a1_)
+                                for a1_ in holders.values()):
+                            is_a.add(q0)
+
             def unrelated(k, q):
                 if k == q:
                     return False
@@ -581,6 +593,17 @@ def check_validator(ctx):
     prog = ctx.prog
     f = prog.func(GEN + '._validate_policy')
     from ..dte import inline_helpers
+    for c in ast.walk(f.node):
+        g = prog.callee_of(f, c) if isinstance(c, ast.Call) else None
+        if g is not None and g.module is f.module and any(
+                isinstance(y, (ast.Yield, ast.YieldFrom))
+                for y in ast.walk(g.node)):
+            raise AnalysisError(
+                'the validator %s collects its findings from the generator '
+                '%s and derives its status from what that yields: the rules '
+                'on the status (one test per problem class, non-zero when '
+                'one is found) read the tests in the validator itself'
+                % (f.qual, g.qual))
     t = Table(prog, f, inline=inline_helpers(prog, modules={GEN},
                                              classes=False), max_depth=4)
     W = ctx.where(f.module, f.node)
